@@ -124,6 +124,17 @@ func init() {
 				}
 			}
 		}
+		if sv.K == SOpaque {
+			if of, isVar := c.s.B64Var[sv.T]; isVar {
+				// the same text with other spare bits in its last character: a Strict decoder
+				// refuses it, the default decoder ignores the spare bits
+				if isStrict(c) {
+					c.setTuple(SliceV{}, c.opaqueErr(litStr("illegal base64 data (non-zero trailing bits)")))
+					return nil, false
+				}
+				sv = opaqueStr(of)
+			}
+		}
 		if orig, hit := c.s.B64[sv.term()]; hit && sv.K == SOpaque {
 			// decoding what was encoded on this path gives back the very same bytes
 			c.setTuple(c.w.bytesOfString(c.s, orig), IfaceV{})
@@ -152,6 +163,29 @@ func init() {
 					st.stack()[depth-1].Env[dest] = TupleV{[]Value{SliceV{}, e}}
 				}
 			})
+	}
+	intrinsics["github.com/buzzfeed/sso/internal/zzverif.B64SpareBitsVariant"] = func(c *icall) ([]*State, bool) {
+		v := c.str(0)
+		if v.K != SOpaque {
+			panic(engineErr("B64SpareBitsVariant of something that is not an encoded text"))
+		}
+		if _, ok := c.s.B64[v.T]; !ok {
+			panic(engineErr("B64SpareBitsVariant of something that is not an encoded text"))
+		}
+		nv := c.w.E.freshVar(c.s, "b64variant", "String")
+		c.s.addPC(tNot(tEq(nv, v.T)))
+		c.s.addPC(tEq("(str.len "+nv+")", strLen(v).T))
+		c.s.addPC(tNot(tEq(nv, `""`)))
+		c.s.addPC(tNot(strContains(opaqueStr(nv), litStr("\n"))))
+		c.s.addPC(tNot(strContains(opaqueStr(nv), litStr("\r"))))
+		if c.s.B64Var == nil {
+			c.s.B64Var = map[string]string{}
+		}
+		c.s.B64Var[nv] = v.T
+		out := opaqueStr(nv)
+		out.Min = 1
+		c.set(out)
+		return nil, false
 	}
 	I["(encoding/base64.Encoding).Strict"] = func(c *icall) ([]*State, bool) {
 		o, ok := c.args[0].(OpaqueObj)
